@@ -1,9 +1,10 @@
-(* Collision witnesses for the undelimited hash stream (C08). *)
-From Coq Require Import List PArith Bool Permutation.
+(* C08: collision witnesses for the undelimited hash stream; injectivity of the delimited stream
+   (prefix-code argument); the real stream as its erasure; digests under A1/A2. *)
+From Coq Require Import List Arith PArith NArith Bool Permutation Lia.
 From JugV Require Import Model.Hash Proofs.HashFacts.
 Import ListNotations.
-Local Open Scope positive_scope.
 
+Local Open Scope positive_scope.
 (* f([1], 2)  /  f([1, 2]) ;  ids: 5000 = pickle(b'mod.f'), 1001 = pickle(1), 1002 = pickle(2) *)
 Definition w1 : pv := mkTask 5000 [PSeq KList [Leaf 1001]; Leaf 1002] [].
 Definition w2 : pv := mkTask 5000 [PSeq KList [Leaf 1001; Leaf 1002]] [].
@@ -33,4 +34,654 @@ Lemma collision_witness_kwargs :
   exists v v' : pv, stream v = stream v' /\ v <> v' /\ dstream v <> dstream v'.
 Proof.
   exists k1, k2. split; [vm_compute; reflexivity|]. split; [discriminate|]. vm_compute. discriminate.
+Qed.
+Local Close Scope positive_scope.
+
+(* ---- "the same invocation": equal up to the memory layout of arrays ---------------------- *)
+Inductive pv_equiv : pv -> pv -> Prop :=
+| PE_leaf l : pv_equiv (Leaf l) (Leaf l)
+| PE_raw l : pv_equiv (RawB l) (RawB l)
+| PE_seq k xs ys : Forall2 pv_equiv xs ys -> pv_equiv (PSeq k xs) (PSeq k ys)
+| PE_set k xs ys : Forall2 pv_equiv xs ys -> pv_equiv (PSet k xs) (PSet k ys)
+| PE_dict kvs kvs' :
+    Forall2 (fun a b => pv_equiv (fst a) (fst b) /\ pv_equiv (snd a) (snd b)) kvs kvs' ->
+    pv_equiv (PDict kvs) (PDict kvs')
+| PE_arr d s c l l' : pv_equiv (PArr d s c l) (PArr d s c l')
+| PE_objarr d s xs ys l l' : Forall2 pv_equiv xs ys -> pv_equiv (PObjArr d s xs l) (PObjArr d s ys l')
+| PE_hashed m fs fs' : Forall2 (fun a b => fst a = fst b /\ pv_equiv (snd a) (snd b)) fs fs' ->
+    pv_equiv (PHashed m fs) (PHashed m fs').
+
+Lemma Forall_Forall2_diag {A} (R : A -> A -> Prop) l : Forall (fun a => R a a) l -> Forall2 R l l.
+Proof. induction 1; constructor; auto. Qed.
+Lemma pv_equiv_refl : forall v, pv_equiv v v.
+Proof.
+  induction v using pv_ind'; constructor; apply Forall_Forall2_diag; try assumption.
+  eapply Forall_impl; [|exact H]. intros a Ha. split; [reflexivity | exact Ha].
+Qed.
+
+Lemma int_id_inj i j : int_id i = int_id j -> i = j.
+Proof. unfold int_id. intro E. apply Nat2Pos.inj in E; lia. Qed.
+Lemma cmark_int i : cmark (int_id i) = false.
+Proof. unfold cmark, int_id. apply Pos.leb_gt. lia. Qed.
+Lemma cmark_seq k : cmark (seq_mark k) = true.
+Proof. destruct k; reflexivity. Qed.
+Lemma cmark_set k : cmark (set_mark k) = true.
+Proof. destruct k; reflexivity. Qed.
+Lemma seq_mark_inj k k' : seq_mark k = seq_mark k' -> k = k'.
+Proof. destruct k, k'; simpl; intro E; try reflexivity; discriminate. Qed.
+Lemma set_mark_inj k k' : set_mark k = set_mark k' -> k = k'.
+Proof. destruct k, k'; simpl; intro E; try reflexivity; discriminate. Qed.
+Lemma seq_set_mark k k' : seq_mark k <> set_mark k'.
+Proof. destruct k, k'; discriminate. Qed.
+
+Lemma tb_cons_inj a b (l l' : list tok) : TB a :: l = TB b :: l' -> a = b /\ l = l'.
+Proof. intro E. injection E. auto. Qed.
+
+Section Prefix.
+  Variable isobj : positive -> bool.
+  Variable delim : bool.
+  Notation code := (stream_elem delim).
+  Notation lns := (lensd delim).
+  Notation wf := (wfb isobj).
+
+  (* the code of a value is prefix-free (jointly with its extents when they are not in the stream) *)
+  Definition PF (v : pv) : Prop :=
+    wf v = true -> forall v' r r' l l', wf v' = true ->
+      code v ++ r = code v' ++ r' -> lns v ++ l = lns v' ++ l' ->
+      pv_equiv v v' /\ r = r' /\ l = l'.
+
+  Lemma len_both n n' (a a' : list tok) (b b' : list nat) :
+    len_tok delim n ++ a = len_tok delim n' ++ a' -> len_l delim n ++ b = len_l delim n' ++ b' ->
+    n = n' /\ a = a' /\ b = b'.
+  Proof.
+    unfold len_tok, len_l. destruct delim; cbn [app]; intros E1 E2.
+    - injection E1 as E1 E1'. apply int_id_inj in E1. auto.
+    - injection E2 as E2 E2'. auto.
+  Qed.
+
+  Lemma enum_pf : forall xs, Forall PF xs -> forallb wf xs = true ->
+    forall xs' i r r' l l', forallb wf xs' = true -> length xs = length xs' ->
+      enumT i (map code xs) ++ r = enumT i (map code xs') ++ r' ->
+      flat_map lns xs ++ l = flat_map lns xs' ++ l' ->
+      Forall2 pv_equiv xs xs' /\ r = r' /\ l = l'.
+  Proof.
+    induction 1 as [|x xs Hx _ IH]; intros Hw xs' i r r' l l' Hw' Hlen E EL.
+    - destruct xs'; [|discriminate]. cbn in E, EL. auto.
+    - destruct xs' as [|x' xs']; [discriminate|].
+      cbn [forallb] in Hw, Hw'. apply andb_true_iff in Hw as [Hwx Hw]. apply andb_true_iff in Hw' as [Hwx' Hw'].
+      cbn [map enumT flat_map] in E, EL. injection Hlen as Hlen.
+      rewrite <- !app_comm_cons, <- !app_assoc in E. injection E as E.
+      rewrite <- !app_assoc in EL.
+      destruct (Hx Hwx _ _ _ _ _ Hwx' E EL) as (Hxx & E' & EL').
+      destruct (IH Hw _ _ _ _ _ _ Hw' Hlen E' EL') as (Hrest & ? & ?).
+      split; [constructor; assumption | auto].
+  Qed.
+
+  Lemma set_pf : forall xs, Forall PF xs -> forallb wf xs = true ->
+    forall xs' i r r' l l', forallb wf xs' = true -> length xs = length xs' ->
+      enumTD i (map (fun x => TB L_hash1 :: code x) xs) ++ r = enumTD i (map (fun x => TB L_hash1 :: code x) xs') ++ r' ->
+      flat_map lns xs ++ l = flat_map lns xs' ++ l' ->
+      Forall2 pv_equiv xs xs' /\ r = r' /\ l = l'.
+  Proof.
+    induction 1 as [|x xs Hx _ IH]; intros Hw xs' i r r' l l' Hw' Hlen E EL.
+    - destruct xs'; [|discriminate]. cbn in E, EL. auto.
+    - destruct xs' as [|x' xs']; [discriminate|].
+      cbn [forallb] in Hw, Hw'. apply andb_true_iff in Hw as [Hwx Hw]. apply andb_true_iff in Hw' as [Hwx' Hw'].
+      cbn [map enumTD flat_map] in E, EL. injection Hlen as Hlen.
+      rewrite <- !app_comm_cons in E. injection E as Ex E.
+      rewrite <- !app_assoc in EL.
+      assert (Ex' : code x ++ [] = code x' ++ []) by (rewrite !app_nil_r; exact Ex).
+      destruct (Hx Hwx _ _ _ _ _ Hwx' Ex' EL) as (Hxx & _ & EL').
+      destruct (IH Hw _ _ _ _ _ _ Hw' Hlen E EL') as (Hrest & ? & ?).
+      split; [constructor; assumption | auto].
+  Qed.
+
+  Lemma dict_pf : forall kvs, Forall (fun kv => PF (fst kv) /\ PF (snd kv)) kvs ->
+    forallb (fun kv => wf (fst kv) && wf (snd kv)) kvs = true ->
+    forall kvs' r r' l l', forallb (fun kv => wf (fst kv) && wf (snd kv)) kvs' = true -> length kvs = length kvs' ->
+      itemsT (map (fun kv => (TB L_hash1 :: code (fst kv), code (snd kv))) kvs) ++ r =
+      itemsT (map (fun kv => (TB L_hash1 :: code (fst kv), code (snd kv))) kvs') ++ r' ->
+      flat_map (fun kv => lns (fst kv) ++ lns (snd kv)) kvs ++ l = flat_map (fun kv => lns (fst kv) ++ lns (snd kv)) kvs' ++ l' ->
+      Forall2 (fun a b => pv_equiv (fst a) (fst b) /\ pv_equiv (snd a) (snd b)) kvs kvs' /\ r = r' /\ l = l'.
+  Proof.
+    unfold itemsT.
+    induction 1 as [|[k v] kvs [Hk Hv] _ IH]; intros Hw kvs' r r' l l' Hw' Hlen E EL.
+    - destruct kvs'; [|discriminate]. cbn in E, EL. auto.
+    - destruct kvs' as [|[k' v'] kvs']; [discriminate|].
+      cbn [forallb fst snd] in Hw, Hw', Hk, Hv.
+      apply andb_true_iff in Hw as [Hwx Hw]. apply andb_true_iff in Hw' as [Hwx' Hw'].
+      apply andb_true_iff in Hwx as [Hwk Hwv]. apply andb_true_iff in Hwx' as [Hwk' Hwv'].
+      cbn [map flat_map fst snd] in E, EL. injection Hlen as Hlen.
+      rewrite <- !app_comm_cons, <- !app_assoc in E. injection E as Ek E.
+      rewrite <- !app_assoc in EL.
+      assert (Ek' : code k ++ [] = code k' ++ []) by (rewrite !app_nil_r; exact Ek).
+      destruct (Hk Hwk _ _ _ _ _ Hwk' Ek' EL) as (Hkk & _ & EL').
+      destruct (Hv Hwv _ _ _ _ _ Hwv' E EL') as (Hvv & E' & EL'').
+      destruct (IH Hw _ _ _ _ _ Hw' Hlen E' EL'') as (Hrest & ? & ?).
+      split; [constructor; [split; assumption | assumption] | auto].
+  Qed.
+
+  Lemma fields_pf : forall fs, Forall (fun f => PF (snd f)) fs ->
+    forallb (fun f => is_label (fst f) && wf (snd f)) fs = true ->
+    forall fs' l l', forallb (fun f => is_label (fst f) && wf (snd f)) fs' = true ->
+      flat_map (fun f => TB (fst f) :: code (snd f)) fs = flat_map (fun f => TB (fst f) :: code (snd f)) fs' ->
+      flat_map (fun f => lns (snd f)) fs ++ l = flat_map (fun f => lns (snd f)) fs' ++ l' ->
+      Forall2 (fun a b => fst a = fst b /\ pv_equiv (snd a) (snd b)) fs fs' /\ l = l'.
+  Proof.
+    induction 1 as [|[n x] fs Hx _ IH]; intros Hw fs' l l' Hw' E EL.
+    - destruct fs'; [|discriminate]. cbn in EL. auto.
+    - destruct fs' as [|[n' x'] fs']; [discriminate|].
+      cbn [forallb fst snd] in Hw, Hw', Hx.
+      apply andb_true_iff in Hw as [Hwx Hw]. apply andb_true_iff in Hw' as [Hwx' Hw'].
+      apply andb_true_iff in Hwx as [_ Hwx]. apply andb_true_iff in Hwx' as [_ Hwx'].
+      cbn [flat_map fst snd] in E, EL.
+      rewrite <- !app_comm_cons in E. injection E as En E.
+      rewrite <- !app_assoc in EL.
+      destruct (Hx Hwx _ _ _ _ _ Hwx' E EL) as (Hxx & E' & EL').
+      destruct (IH Hw _ _ _ Hw' E' EL') as (Hrest & ?).
+      split; [constructor; [split; assumption | assumption] | auto].
+  Qed.
+
+  Lemma fields_head_label fs : forallb (fun f => is_label (fst f) && wf (snd f)) fs = true ->
+    forall b rest, flat_map (fun f => TB (fst f) :: code (snd f)) fs = TB b :: rest -> is_label b = true.
+  Proof.
+    destruct fs as [|[n x] fs]; intros Hw b rest E; [discriminate|].
+    cbn [forallb flat_map fst snd] in Hw, E. apply andb_true_iff in Hw as [Hw _]. apply andb_true_iff in Hw as [Hw _].
+    rewrite <- app_comm_cons in E. injection E as E _. subst. exact Hw.
+  Qed.
+
+  Ltac kill :=
+    exfalso;
+    repeat match goal with
+    | H : negb _ = true |- _ => apply negb_true_iff in H
+    | H : _ && _ = true |- _ => apply andb_true_iff in H; destruct H
+    end; subst;
+    try discriminate;
+    try (match goal with H : cmark (seq_mark _) = false |- _ => rewrite cmark_seq in H; discriminate end);
+    try (match goal with H : cmark (set_mark _) = false |- _ => rewrite cmark_set in H; discriminate end);
+    try (match goal with H : seq_mark _ = set_mark _ |- _ => exact (seq_set_mark _ _ H) end);
+    try (match goal with H : set_mark _ = seq_mark _ |- _ => exact (seq_set_mark _ _ (eq_sym H)) end);
+    try (match goal with H : seq_mark ?k = _ |- _ => destruct k; discriminate end);
+    try (match goal with H : _ = seq_mark ?k |- _ => destruct k; discriminate end);
+    try (match goal with H : set_mark ?k = _ |- _ => destruct k; discriminate end);
+    try (match goal with H : _ = set_mark ?k |- _ => destruct k; discriminate end);
+    try congruence.
+
+  Theorem code_prefix_free : forall v, PF v.
+  Proof.
+    induction v using pv_ind'; intros Hw v' r r' l0 l0' Hw' E EL.
+    - (* Leaf *)
+      cbn [wfb] in Hw.
+      destruct v'; cbn [stream_elem lensd wfb] in E, EL, Hw'; try discriminate;
+        rewrite <- ?app_comm_cons in E; apply tb_cons_inj in E as [E1 E2]; try solve [kill].
+      subst. cbn [app] in EL, E2. split; [constructor | auto].
+    - discriminate.
+    - (* PSeq *)
+      cbn [wfb] in Hw.
+      destruct v'; cbn [stream_elem lensd wfb] in E, EL, Hw'; try discriminate;
+        rewrite <- ?app_comm_cons in E; apply tb_cons_inj in E as [E1 E2]; try solve [kill].
+      apply seq_mark_inj in E1. subst k0.
+      rewrite <- !app_assoc in E2, EL.
+      destruct (len_both _ _ _ _ _ _ E2 EL) as (Hlen & E' & EL').
+      destruct (enum_pf xs H Hw _ _ _ _ _ _ Hw' Hlen E' EL') as (Hf & ? & ?).
+      split; [constructor; exact Hf | auto].
+    - (* PSet *)
+      cbn [wfb] in Hw.
+      destruct v'; cbn [stream_elem lensd wfb] in E, EL, Hw'; try discriminate;
+        rewrite <- ?app_comm_cons in E; apply tb_cons_inj in E as [E1 E2]; try solve [kill].
+      apply set_mark_inj in E1. subst k0.
+      rewrite <- !app_assoc in E2, EL.
+      destruct (len_both _ _ _ _ _ _ E2 EL) as (Hlen & E' & EL').
+      destruct (set_pf xs H Hw _ _ _ _ _ _ Hw' Hlen E' EL') as (Hf & ? & ?).
+      split; [constructor; exact Hf | auto].
+    - (* PDict *)
+      cbn [wfb] in Hw.
+      destruct v'; cbn [stream_elem lensd wfb] in E, EL, Hw'; try discriminate;
+        rewrite <- ?app_comm_cons in E; apply tb_cons_inj in E as [E1 E2]; try solve [kill].
+      rewrite <- !app_assoc in E2, EL.
+      destruct (len_both _ _ _ _ _ _ E2 EL) as (Hlen & E' & EL').
+      destruct (dict_pf kvs H Hw _ _ _ _ _ Hw' Hlen E' EL') as (Hf & ? & ?).
+      split; [constructor; exact Hf | auto].
+    - (* PArr *)
+      cbn [wfb] in Hw. apply negb_true_iff in Hw.
+      destruct v'; cbn [stream_elem lensd wfb] in E, EL, Hw'; try discriminate;
+        rewrite <- ?app_comm_cons in E; apply tb_cons_inj in E as [E1 E2]; try solve [kill].
+      cbn [app] in E2. injection E2 as Ed Es Ec Er. subst. cbn [app] in EL.
+      split; [constructor | auto].
+    - (* PObjArr *)
+      cbn [wfb] in Hw. apply andb_true_iff in Hw as [Hd Hw].
+      destruct v'; cbn [stream_elem lensd wfb] in E, EL, Hw'; try discriminate;
+        rewrite <- ?app_comm_cons in E; apply tb_cons_inj in E as [E1 E2]; try solve [kill].
+      apply andb_true_iff in Hw' as [Hd' Hw'].
+      rewrite <- ?app_comm_cons in E2. apply tb_cons_inj in E2 as [Ed E2]. apply tb_cons_inj in E2 as [Es E2]. subst.
+      rewrite <- !app_assoc in E2, EL.
+      destruct (len_both _ _ _ _ _ _ E2 EL) as (Hlen & E' & EL').
+      destruct (enum_pf xs H Hw _ _ _ _ _ _ Hw' Hlen E' EL') as (Hf & ? & ?).
+      split; [constructor; exact Hf | auto].
+    - (* PHashed *)
+      cbn [wfb] in Hw. apply andb_true_iff in Hw as [Hm Hw].
+      destruct v'; cbn [stream_elem lensd wfb] in E, EL, Hw'; try discriminate.
+      apply andb_true_iff in Hw' as [Hm' Hw'].
+      cbn [app] in E. injection E as E Er.
+      assert (Em : m = mark /\ flat_map (fun f => TB (fst f) :: code (snd f)) fs =
+                                flat_map (fun f => TB (fst f) :: code (snd f)) fields).
+      { destruct m as [b|], mark as [b'|]; cbn [opt_mark app] in E.
+        - injection E as E1 E2. subst. auto.
+        - symmetry in E. apply (fields_head_label _ Hw') in E.
+          cbn [mark_ok] in Hm. rewrite E in Hm. discriminate.
+        - apply (fields_head_label _ Hw) in E.
+          cbn [mark_ok] in Hm'. rewrite E in Hm'. discriminate.
+        - auto. }
+      destruct Em as [-> E'].
+      destruct (fields_pf fs H Hw _ _ _ Hw' E' EL) as (Hf & ?).
+      split; [constructor; exact Hf | auto].
+  Qed.
+End Prefix.
+
+Lemma flat_map_nil {A B} (f : A -> list B) (l : list A) : Forall (fun x => f x = []) l -> flat_map f l = [].
+Proof. induction 1 as [|x t E _ IH]; simpl; [reflexivity|]. rewrite E, IH. reflexivity. Qed.
+
+Lemma lensd_true_nil : forall v, lensd true v = [].
+Proof.
+  induction v using pv_ind'; cbn [lensd len_l app]; try reflexivity;
+    try (apply flat_map_nil; assumption).
+  - apply flat_map_nil. eapply Forall_impl; [|exact H]. intros kv [E1 E2]. simpl. rewrite E1, E2. reflexivity.
+Qed.
+
+(* the delimited stream is injective on the universe *)
+Theorem dstream_injective : forall isobj v v',
+  wfb isobj v = true -> wfb isobj v' = true -> dstream v = dstream v' -> pv_equiv v v'.
+Proof.
+  intros isobj v v' Hw Hw' E.
+  apply (code_prefix_free isobj true v Hw v' [] [] [] [] Hw').
+  - unfold dstream in E. rewrite E. reflexivity.
+  - rewrite !lensd_true_nil. reflexivity.
+Qed.
+
+(* ... and a prefix code: a value's chunks can be told from whatever follows them *)
+Theorem dstream_prefix_free : forall isobj v v' r r',
+  wfb isobj v = true -> wfb isobj v' = true -> dstream v ++ r = dstream v' ++ r' -> pv_equiv v v' /\ r = r'.
+Proof.
+  intros isobj v v' r r' Hw Hw' E.
+  destruct (code_prefix_free isobj true v Hw v' r r' [] [] Hw' E) as (He & Hr & _).
+  - rewrite !lensd_true_nil. reflexivity.
+  - auto.
+Qed.
+
+(* identifiers of the real (undelimited) stream collide only by disagreeing on container extents *)
+Theorem stream_lens_injective : forall isobj v v',
+  wfb isobj v = true -> wfb isobj v' = true -> stream v = stream v' -> lens v = lens v' -> pv_equiv v v'.
+Proof.
+  intros isobj v v' Hw Hw' E EL.
+  apply (code_prefix_free isobj false v Hw v' [] [] [] [] Hw').
+  - unfold stream in E. rewrite E. reflexivity.
+  - unfold lens in EL. rewrite EL. reflexivity.
+Qed.
+
+(* ---- converse: equivalent values have the same stream and the same extents -------------- *)
+Lemma Forall2_length {A B} (R : A -> B -> Prop) l l' : Forall2 R l l' -> length l = length l'.
+Proof. induction 1; simpl; congruence. Qed.
+
+Lemma Forall2_flat_map_eq {A B C} (f : A -> list C) (g : B -> list C) l l' :
+  Forall2 (fun a b => f a = g b) l l' -> flat_map f l = flat_map g l'.
+Proof. induction 1 as [|a b l l' E _ IH]; simpl; [reflexivity|]. rewrite E, IH. reflexivity. Qed.
+
+Lemma Forall2_mp {A B} (R R' : A -> B -> Prop) l l' :
+  Forall (fun a => forall b, R a b -> R' a b) l -> Forall2 R l l' -> Forall2 R' l l'.
+Proof.
+  intros Hf H2. induction H2 as [|a b l l' Hab _ IH]; [constructor|].
+  inversion Hf; subst. constructor; auto.
+Qed.
+
+Theorem pv_equiv_stream : forall delim v v', pv_equiv v v' ->
+  stream_elem delim v = stream_elem delim v' /\ lensd delim v = lensd delim v'.
+Proof.
+  intro delim. induction v using pv_ind'; intros v' Hv; inversion Hv; subst; cbn [stream_elem lensd].
+  - auto.
+  - auto.
+  - assert (Hf : Forall2 (fun a b => stream_elem delim a = stream_elem delim b /\ lensd delim a = lensd delim b) xs ys).
+    { eapply Forall2_mp; [|eassumption]. exact H. }
+    assert (Em : map (stream_elem delim) xs = map (stream_elem delim) ys).
+    { apply Forall2_map_eq. eapply Forall2_imp; [|exact Hf]. intros a b [E _]. exact E. }
+    assert (El : flat_map (lensd delim) xs = flat_map (lensd delim) ys).
+    { apply Forall2_flat_map_eq. eapply Forall2_imp; [|exact Hf]. intros a b [_ E]. exact E. }
+    rewrite (Forall2_length _ _ _ Hf), Em, El. auto.
+  - assert (Hf : Forall2 (fun a b => stream_elem delim a = stream_elem delim b /\ lensd delim a = lensd delim b) xs ys).
+    { eapply Forall2_mp; [|eassumption]. exact H. }
+    assert (Em : map (fun x => TB L_hash1 :: stream_elem delim x) xs = map (fun x => TB L_hash1 :: stream_elem delim x) ys).
+    { apply Forall2_map_eq. eapply Forall2_imp; [|exact Hf]. intros a b [E _]. rewrite E. reflexivity. }
+    assert (El : flat_map (lensd delim) xs = flat_map (lensd delim) ys).
+    { apply Forall2_flat_map_eq. eapply Forall2_imp; [|exact Hf]. intros a b [_ E]. exact E. }
+    rewrite (Forall2_length _ _ _ Hf), Em, El. auto.
+  - assert (Hf : Forall2 (fun a b : pv * pv =>
+                   (stream_elem delim (fst a) = stream_elem delim (fst b) /\ lensd delim (fst a) = lensd delim (fst b)) /\
+                   (stream_elem delim (snd a) = stream_elem delim (snd b) /\ lensd delim (snd a) = lensd delim (snd b))) kvs kvs').
+    { eapply Forall2_mp; [|eassumption]. eapply Forall_impl; [|exact H].
+      intros a [IH1 IH2] b [E1 E2]. split; auto. }
+    assert (Em : map (fun kv : pv * pv => (TB L_hash1 :: stream_elem delim (fst kv), stream_elem delim (snd kv))) kvs =
+                 map (fun kv : pv * pv => (TB L_hash1 :: stream_elem delim (fst kv), stream_elem delim (snd kv))) kvs').
+    { apply Forall2_map_eq. eapply Forall2_imp; [|exact Hf]. intros a b [[E1 _] [E2 _]]. rewrite E1, E2. reflexivity. }
+    assert (El : flat_map (fun kv : pv * pv => lensd delim (fst kv) ++ lensd delim (snd kv)) kvs =
+                 flat_map (fun kv : pv * pv => lensd delim (fst kv) ++ lensd delim (snd kv)) kvs').
+    { apply Forall2_flat_map_eq. eapply Forall2_imp; [|exact Hf]. intros a b [[_ E1] [_ E2]]. rewrite E1, E2. reflexivity. }
+    rewrite (Forall2_length _ _ _ Hf), Em, El. auto.
+  - auto.
+  - assert (Hf : Forall2 (fun a b => stream_elem delim a = stream_elem delim b /\ lensd delim a = lensd delim b) xs ys).
+    { eapply Forall2_mp; [|eassumption]. exact H. }
+    assert (Em : map (stream_elem delim) xs = map (stream_elem delim) ys).
+    { apply Forall2_map_eq. eapply Forall2_imp; [|exact Hf]. intros a b [E _]. exact E. }
+    assert (El : flat_map (lensd delim) xs = flat_map (lensd delim) ys).
+    { apply Forall2_flat_map_eq. eapply Forall2_imp; [|exact Hf]. intros a b [_ E]. exact E. }
+    rewrite (Forall2_length _ _ _ Hf), Em, El. auto.
+  - assert (Hf : Forall2 (fun a b : positive * pv => fst a = fst b /\
+                   (stream_elem delim (snd a) = stream_elem delim (snd b) /\ lensd delim (snd a) = lensd delim (snd b))) fs fs').
+    { eapply Forall2_mp; [|eassumption]. eapply Forall_impl; [|exact H].
+      intros a IH1 b [E1 E2]. split; auto. }
+    assert (Em : flat_map (fun f : positive * pv => TB (fst f) :: stream_elem delim (snd f)) fs =
+                 flat_map (fun f : positive * pv => TB (fst f) :: stream_elem delim (snd f)) fs').
+    { apply Forall2_flat_map_eq. eapply Forall2_imp; [|exact Hf]. intros a b [E1 [E2 _]]. rewrite E1, E2. reflexivity. }
+    assert (El : flat_map (fun f : positive * pv => lensd delim (snd f)) fs = flat_map (fun f : positive * pv => lensd delim (snd f)) fs').
+    { apply Forall2_flat_map_eq. eapply Forall2_imp; [|exact Hf]. intros a b [_ [_ E]]. exact E. }
+    rewrite Em, El. auto.
+Qed.
+
+(* ---- the real stream is the delimited stream with the length chunks erased --------------- *)
+Section Erase.
+  Variable isobj : positive -> bool.
+  Notation er := (erase isobj).
+
+  Lemma erase_plain m rest : cmark m = false -> er (TB m :: rest) = TB m :: er rest.
+  Proof. intro Hm. unfold erase. cbn [erase_list]. rewrite Hm. reflexivity. Qed.
+  Lemma erase_cm m x rest : cmark m = true -> (m =? M_ndarray)%positive = false ->
+    er (TB m :: x :: rest) = TB m :: er rest.
+  Proof. intros Hm Hn. unfold erase. cbn [erase_list]. rewrite Hm, Hn. reflexivity. Qed.
+  Lemma erase_arr d s x rest :
+    er (TB M_ndarray :: TB d :: TB s :: x :: rest) =
+    TB M_ndarray :: TB d :: TB s :: (if isobj d then er rest else erase_tok isobj x :: er rest).
+  Proof. reflexivity. Qed.
+  Lemma erase_dig sub rest : er (TDigest sub :: rest) = TDigest (er sub) :: er rest.
+  Proof. reflexivity. Qed.
+  Lemma erase_pdig sub rest : er (TPDigest sub :: rest) = TPDigest (er sub) :: er rest.
+  Proof. reflexivity. Qed.
+  Lemma erase_nil : er [] = [].
+  Proof. reflexivity. Qed.
+
+  Lemma label_not_cmark l : is_label l = true -> cmark l = false.
+  Proof.
+    unfold is_label, cmark. intro Hl. apply andb_true_iff in Hl as [H1 _].
+    apply Pos.leb_le in H1. apply Pos.leb_gt. lia.
+  Qed.
+
+  Definition ER (v : pv) : Prop :=
+    wfb isobj v = true -> forall r, er (dstream v ++ r) = stream v ++ er r.
+
+  Lemma erase_enum : forall xs, Forall ER xs -> forallb (wfb isobj) xs = true ->
+    forall i r, er (enumT i (map dstream xs) ++ r) = enumT i (map stream xs) ++ er r.
+  Proof.
+    induction 1 as [|x xs Hx _ IH]; intros Hw i r; [reflexivity|].
+    cbn [forallb] in Hw. apply andb_true_iff in Hw as [Hwx Hw].
+    cbn [map enumT]. rewrite <- !app_comm_cons, <- !app_assoc.
+    rewrite erase_plain by apply cmark_int. rewrite (Hx Hwx), (IH Hw). reflexivity.
+  Qed.
+
+  Lemma erase_enumTD : forall xs, Forall ER xs -> forallb (wfb isobj) xs = true ->
+    forall i r, er (enumTD i (map (fun x => TB L_hash1 :: dstream x) xs) ++ r) =
+                enumTD i (map (fun x => TB L_hash1 :: stream x) xs) ++ er r.
+  Proof.
+    induction 1 as [|x xs Hx _ IH]; intros Hw i r; [reflexivity|].
+    cbn [forallb] in Hw. apply andb_true_iff in Hw as [Hwx Hw].
+    cbn [map enumTD]. rewrite <- !app_comm_cons.
+    rewrite erase_plain by apply cmark_int. rewrite erase_pdig.
+    rewrite erase_plain by reflexivity.
+    rewrite <- (app_nil_r (dstream x)), (Hx Hwx), erase_nil, app_nil_r, (IH Hw). reflexivity.
+  Qed.
+
+  Lemma erase_items : forall kvs, Forall (fun kv => ER (fst kv) /\ ER (snd kv)) kvs ->
+    forallb (fun kv => wfb isobj (fst kv) && wfb isobj (snd kv)) kvs = true ->
+    forall r, er (itemsT (map (fun kv => (TB L_hash1 :: dstream (fst kv), dstream (snd kv))) kvs) ++ r) =
+              itemsT (map (fun kv => (TB L_hash1 :: stream (fst kv), stream (snd kv))) kvs) ++ er r.
+  Proof.
+    unfold itemsT.
+    induction 1 as [|[k v] kvs [Hk Hv] _ IH]; intros Hw r; [reflexivity|].
+    cbn [forallb fst snd] in Hw, Hk, Hv. apply andb_true_iff in Hw as [Hwx Hw]. apply andb_true_iff in Hwx as [Hwk Hwv].
+    cbn [map flat_map fst snd]. rewrite <- !app_comm_cons, <- !app_assoc.
+    rewrite erase_pdig. rewrite erase_plain by reflexivity.
+    rewrite <- (app_nil_r (dstream k)), (Hk Hwk), erase_nil, app_nil_r, (Hv Hwv), (IH Hw). reflexivity.
+  Qed.
+
+  Lemma erase_fields : forall fs, Forall (fun f => ER (snd f)) fs ->
+    forallb (fun f => is_label (fst f) && wfb isobj (snd f)) fs = true ->
+    forall r, er (flat_map (fun f => TB (fst f) :: dstream (snd f)) fs ++ r) =
+              flat_map (fun f => TB (fst f) :: stream (snd f)) fs ++ er r.
+  Proof.
+    induction 1 as [|[n x] fs Hx _ IH]; intros Hw r; [reflexivity|].
+    cbn [forallb fst snd] in Hw, Hx. apply andb_true_iff in Hw as [Hwx Hw]. apply andb_true_iff in Hwx as [Hn Hwx].
+    cbn [flat_map fst snd]. rewrite <- !app_comm_cons, <- !app_assoc.
+    rewrite erase_plain by (apply label_not_cmark; exact Hn).
+    rewrite (Hx Hwx), (IH Hw). reflexivity.
+  Qed.
+
+  Lemma erase_app_code : forall v, ER v.
+  Proof.
+    unfold ER, dstream, stream.
+    induction v using pv_ind'; intros Hw r; cbn [wfb] in Hw; cbn [stream_elem len_tok].
+    - apply negb_true_iff in Hw. cbn [app]. apply erase_plain. exact Hw.
+    - discriminate.
+    - rewrite <- !app_comm_cons. cbn [app].
+      rewrite erase_cm by (destruct k; reflexivity).
+      rewrite (erase_enum xs H Hw). reflexivity.
+    - rewrite <- !app_comm_cons. cbn [app].
+      rewrite erase_cm by (destruct k; reflexivity).
+      rewrite (erase_enumTD xs H Hw). reflexivity.
+    - rewrite <- !app_comm_cons. cbn [app].
+      rewrite erase_cm by reflexivity.
+      rewrite (erase_items kvs H Hw). reflexivity.
+    - apply negb_true_iff in Hw. cbn [app]. rewrite erase_arr, Hw. reflexivity.
+    - apply andb_true_iff in Hw as [Hd Hw]. rewrite <- !app_comm_cons. cbn [app].
+      rewrite erase_arr, Hd. rewrite (erase_enum xs H Hw). reflexivity.
+    - apply andb_true_iff in Hw as [Hm Hw]. cbn [app]. rewrite erase_dig. f_equal. f_equal.
+      rewrite <- (app_nil_r (flat_map _ fs)) at 1.
+      destruct m as [b|]; cbn [opt_mark app].
+      + cbn [mark_ok] in Hm. apply andb_true_iff in Hm as [_ Hm]. apply negb_true_iff in Hm.
+        rewrite erase_plain by exact Hm. rewrite (erase_fields fs H Hw), erase_nil, app_nil_r. reflexivity.
+      + rewrite (erase_fields fs H Hw), erase_nil, app_nil_r. reflexivity.
+  Qed.
+
+  Theorem stream_erases : forall v, wfb isobj v = true -> stream v = er (dstream v).
+  Proof.
+    intros v Hw. rewrite <- (app_nil_r (dstream v)), (erase_app_code v Hw), erase_nil, app_nil_r. reflexivity.
+  Qed.
+End Erase.
+
+(* ---- from token streams to digests: A1 (the hash is injective) and A2 (the byte rendering of
+        a chunk sequence is uniquely decodable) as explicit hypotheses ------------------------ *)
+Section TokInd.
+  Variable P : tok -> Prop.
+  Hypothesis HB : forall id, P (TB id).
+  Hypothesis HD : forall sub, Forall P sub -> P (TDigest sub).
+  Hypothesis HP : forall sub, Forall P sub -> P (TPDigest sub).
+  Fixpoint tok_ind' (t : tok) : P t :=
+    match t with
+    | TB id => HB id
+    | TDigest sub => HD sub ((fix go (l : list tok) : Forall P l :=
+                                match l with [] => Forall_nil _ | x :: r => Forall_cons _ (tok_ind' x) (go r) end) sub)
+    | TPDigest sub => HP sub ((fix go (l : list tok) : Forall P l :=
+                                match l with [] => Forall_nil _ | x :: r => Forall_cons _ (tok_ind' x) (go r) end) sub)
+    end.
+End TokInd.
+
+Section Ident.
+  Variables D B : Type.
+  Variable render : atom D -> list B.     (* the bytes of one chunk *)
+  Variable Hb : list B -> D.              (* sha1 of a byte string, as a hexdigest *)
+  Hypothesis A1 : forall x y, Hb x = Hb y -> x = y.
+  Hypothesis A2 : forall l l' : list (atom D), flat_map render l = flat_map render l' -> l = l'.
+
+  (* the hash object: fed chunks, it digests their concatenation *)
+  Definition Hr (l : list (atom D)) : D := Hb (flat_map render l).
+
+  Lemma Hr_inj l l' : Hr l = Hr l' -> l = l'.
+  Proof. unfold Hr. intro E. apply A2, A1, E. Qed.
+
+  Lemma atoms_inj_list : forall ts, Forall (fun t => forall t', atom_of D Hr t = atom_of D Hr t' -> t = t') ts ->
+    forall ts', atoms D Hr ts = atoms D Hr ts' -> ts = ts'.
+  Proof.
+    induction 1 as [|t ts Ht _ IH]; intros ts' E; destruct ts' as [|t' ts']; try discriminate; [reflexivity|].
+    cbn [atoms] in E. injection E as E1 E2. f_equal; auto.
+  Qed.
+
+  Lemma atom_of_inj : forall t t', atom_of D Hr t = atom_of D Hr t' -> t = t'.
+  Proof.
+    induction t using tok_ind'; intros t' E; destruct t' as [id'|sub'|sub'];
+      rewrite ?atom_of_TB, ?atom_of_TDigest, ?atom_of_TPDigest in E; try discriminate.
+    - congruence.
+    - injection E as E. apply Hr_inj in E. f_equal. apply atoms_inj_list; assumption.
+    - injection E as E. apply Hr_inj in E. f_equal. apply atoms_inj_list; assumption.
+  Qed.
+
+  Lemma atoms_inj ts ts' : atoms D Hr ts = atoms D Hr ts' -> ts = ts'.
+  Proof. apply atoms_inj_list. apply Forall_forall. intros t _. apply atom_of_inj. Qed.
+
+  Variable isobj : positive -> bool.
+
+  (* with a length chunk after each container marker, the chunk sequence - for a task or tasklet
+     this is its digest - determines the invocation *)
+  Theorem dident_injective : forall v v', wfb isobj v = true -> wfb isobj v' = true ->
+    atoms D Hr (dstream v) = atoms D Hr (dstream v') -> pv_equiv v v'.
+  Proof. intros v v' Hw Hw' E. apply atoms_inj in E. eapply dstream_injective; eassumption. Qed.
+
+  Theorem dhash_one_injective : forall v v', wfb isobj v = true -> wfb isobj v' = true ->
+    Hr (atoms D Hr (hash_one_stream true v)) = Hr (atoms D Hr (hash_one_stream true v')) -> pv_equiv v v'.
+  Proof.
+    intros v v' Hw Hw' E. apply Hr_inj, atoms_inj in E. unfold hash_one_stream in E. injection E as E.
+    eapply dstream_injective; eassumption.
+  Qed.
+
+  (* the real identifiers (sort of set/dict items by digest included) *)
+  Variable leD : D -> D -> bool.
+  Hypothesis leD_total : forall a b, leD a b = true \/ leD b a = true.
+  Hypothesis leD_antisym : forall a b, leD a b = true -> leD b a = true -> a = b.
+  Hypothesis leD_trans : forall a b c, leD a b = true -> leD b c = true -> leD a c = true.
+
+  Theorem ident_partial : forall v v', wfb isobj v = true -> wfb isobj v' = true ->
+    hsorted D leD Hr v -> hsorted D leD Hr v' ->
+    fl D leD Hr v = fl D leD Hr v' -> lens v = lens v' -> pv_equiv v v'.
+  Proof.
+    intros v v' Hw Hw' Hs Hs' E EL.
+    rewrite <- !(stream_is_fl D leD leD_total leD_antisym leD_trans Hr) in E by assumption.
+    apply atoms_inj in E. eapply stream_lens_injective; eassumption.
+  Qed.
+
+  Theorem hash_one_partial : forall v v', wfb isobj v = true -> wfb isobj v' = true ->
+    hsorted D leD Hr v -> hsorted D leD Hr v' ->
+    hash_one_dig D leD Hr v = hash_one_dig D leD Hr v' -> lens v = lens v' -> pv_equiv v v'.
+  Proof.
+    intros v v' Hw Hw' Hs Hs' E EL. unfold hash_one_dig in E. apply Hr_inj in E. injection E as E.
+    eapply ident_partial; eassumption.
+  Qed.
+End Ident.
+
+(* ---- the hypotheses A1, A2 and the order hypotheses are jointly satisfiable -------------- *)
+Module Instance.
+  Definition D0 := list nat.
+  Definition render0 (a : atom D0) : list nat :=
+    match a with
+    | AB _ id => [0; Pos.to_nat id]
+    | ADig _ d => 1 :: length d :: d
+    | APDig _ d => 2 :: length d :: d
+    end.
+  Definition Hb0 (x : list nat) : D0 := x.
+
+  Lemma app_inj_len {A} (a a' r r' : list A) : length a = length a' -> a ++ r = a' ++ r' -> a = a' /\ r = r'.
+  Proof.
+    revert a'. induction a as [|x a IH]; intros [|x' a'] Hl E; try discriminate; [auto|].
+    cbn in Hl, E. injection Hl as Hl. injection E as Ex E. destruct (IH _ Hl E). subst. auto.
+  Qed.
+
+  Lemma A1_0 : forall x y, Hb0 x = Hb0 y -> x = y.
+  Proof. auto. Qed.
+
+  Lemma A2_0 : forall l l' : list (atom D0), flat_map render0 l = flat_map render0 l' -> l = l'.
+  Proof.
+    induction l as [|a l IH]; intros [|a' l'] E.
+    - reflexivity.
+    - destruct a'; discriminate.
+    - destruct a; discriminate.
+    - cbn [flat_map] in E.
+      destruct a as [i|d|d], a' as [i'|d'|d']; cbn [render0 app] in E; try discriminate.
+      + injection E as Ei E. apply Pos2Nat.inj in Ei. subst. f_equal. auto.
+      + injection E as El E. destruct (app_inj_len _ _ _ _ El E) as [-> E']. f_equal. auto.
+      + injection E as El E. destruct (app_inj_len _ _ _ _ El E) as [-> E']. f_equal. auto.
+  Qed.
+
+  Fixpoint lle (a b : list nat) : bool :=
+    match a, b with
+    | [], _ => true
+    | _ :: _, [] => false
+    | x :: a', y :: b' => Nat.ltb x y || (Nat.eqb x y && lle a' b')
+    end.
+
+  Lemma lle_total : forall a b, lle a b = true \/ lle b a = true.
+  Proof.
+    induction a as [|x a IH]; intros [|y b]; cbn [lle]; auto.
+    destruct (lt_eq_lt_dec x y) as [[Hlt|Heq]|Hgt].
+    - left. apply Nat.ltb_lt in Hlt. rewrite Hlt. reflexivity.
+    - subst. rewrite Nat.ltb_irrefl, Nat.eqb_refl. cbn [orb andb]. apply IH.
+    - right. apply Nat.ltb_lt in Hgt. rewrite Hgt. reflexivity.
+  Qed.
+
+  Lemma lle_cases x y a b : lle (x :: a) (y :: b) = true -> x < y \/ (x = y /\ lle a b = true).
+  Proof.
+    cbn [lle]. intro E. apply orb_true_iff in E as [E|E].
+    - left. apply Nat.ltb_lt. exact E.
+    - right. apply andb_true_iff in E as [E1 E2]. apply Nat.eqb_eq in E1. auto.
+  Qed.
+
+  Lemma lle_antisym : forall a b, lle a b = true -> lle b a = true -> a = b.
+  Proof.
+    induction a as [|x a IH]; intros [|y b] H1 H2; try discriminate; [reflexivity|].
+    apply lle_cases in H1. apply lle_cases in H2.
+    destruct H1 as [H1|[H1 H1']], H2 as [H2|[H2 H2']]; try lia.
+    subst. f_equal. auto.
+  Qed.
+
+  Lemma lle_trans : forall a b c, lle a b = true -> lle b c = true -> lle a c = true.
+  Proof.
+    induction a as [|x a IH]; intros [|y b] [|z c] H1 H2; try discriminate; try reflexivity.
+    apply lle_cases in H1. apply lle_cases in H2. cbn [lle].
+    destruct H1 as [H1|[H1 H1']], H2 as [H2|[H2 H2']].
+    - assert (E : x < z) by lia. apply Nat.ltb_lt in E. rewrite E. reflexivity.
+    - subst. apply Nat.ltb_lt in H1. rewrite H1. reflexivity.
+    - subst. apply Nat.ltb_lt in H2. rewrite H2. reflexivity.
+    - subst. rewrite Nat.eqb_refl, (IH _ _ H1' H2'). apply orb_true_r.
+  Qed.
+End Instance.
+
+Local Open Scope positive_scope.
+Definition isobj0 (d : positive) : bool := (d =? 5010).
+(* f([1, <array, layout l>], {'a'}, <object array [1, ()]>, k={'b': f()[0]}) *)
+Definition exv (l : nat) : pv :=
+  mkTask 5000 [PSeq KList [Leaf 1001; PArr 5012 5011 5013 l]; PSet KSet [Leaf 5001];
+               PObjArr 5010 5011 [Leaf 1001; PSeq KTuple []] l]
+              [(5002, PDict [(Leaf 5003, mkTasklet (mkTask 5000 [] []) (mkGetitem (Leaf 1000)))])].
+
+Lemma hypotheses_satisfiable :
+  (exists (D B : Type) (render : atom D -> list B) (Hb : list B -> D) (leD : D -> D -> bool),
+     (forall x y, Hb x = Hb y -> x = y) /\
+     (forall l l' : list (atom D), flat_map render l = flat_map render l' -> l = l') /\
+     (forall a b, leD a b = true \/ leD b a = true) /\
+     (forall a b, leD a b = true -> leD b a = true -> a = b) /\
+     (forall a b c, leD a b = true -> leD b c = true -> leD a c = true) /\
+     hsorted D leD (Hr D B render Hb) (exv 0) /\ hsorted D leD (Hr D B render Hb) (exv 1)) /\
+  wfb isobj0 (exv 0) = true /\ wfb isobj0 (exv 1) = true /\ exv 0 <> exv 1 /\
+  dstream (exv 0) = dstream (exv 1) /\ stream (exv 0) = stream (exv 1) /\ lens (exv 0) = lens (exv 1) /\
+  lens (exv 0) = [3; 2; 1; 2; 0; 1; 1; 0; 0; 2]%nat /\
+  wfb isobj0 w1 = true /\ wfb isobj0 w2 = true /\ lens w1 <> lens w2.
+Proof.
+  split.
+  { exists Instance.D0, nat, Instance.render0, Instance.Hb0, Instance.lle.
+    split; [exact Instance.A1_0|]. split; [exact Instance.A2_0|].
+    split; [exact Instance.lle_total|]. split; [exact Instance.lle_antisym|]. split; [exact Instance.lle_trans|].
+    split; cbn; repeat split; repeat constructor; intros []. }
+  repeat split; try (vm_compute; reflexivity); try (vm_compute; discriminate).
 Qed.
